@@ -15,6 +15,7 @@
 #include <symengine/matrices/transpose.h>
 #include <symengine/matrices/conjugate_matrix.h>
 #include <symengine/matrices/trace.h>
+#include <symengine/cwrapper.h>
 
 namespace verif
 {
@@ -100,6 +101,58 @@ inline Universe build_universe(bool thorough)
     LEAF("-oo", NegInf, false);
     LEAF("zoo", ComplexInf, false);
     LEAF("NaN", Nan, false);
+    // ---- the same numbers through other public construction paths (low-level factories, C API, parser, loads)
+    LEAF("from_mpq(2/4)", Rational::from_mpq(rational_class(integer_class(2), integer_class(4))), false);
+    LEAF("from_mpq(-2/-4)", Rational::from_mpq(rational_class(integer_class(-2), integer_class(-4))), false);
+    LEAF("from_mpq(4/2)", Rational::from_mpq(rational_class(integer_class(4), integer_class(2))), false);
+    LEAF("from_two_ints(2,4)", Rational::from_two_ints(2, 4), false);
+    LEAF("Complex::from_mpq(2/4,2/2)", Complex::from_mpq(rational_class(integer_class(2), integer_class(4)), rational_class(integer_class(2), integer_class(2))), false);
+    LEAF("Complex::from_two_nums(1/2,1)", Complex::from_two_nums(*Rational::from_two_ints(1, 2), *integer(1)), false);
+    LEAF("Complex::from_two_nums(1,0)", Complex::from_two_nums(*integer(1), *integer(0)), false);
+    LEAF("number(1.0+0i)", number(std::complex<double>(1.0, 0.0)), false);
+    LEAF("div(2,4)", div(integer(2), integer(4)), false);
+    LEAF("parse(2/4)", parse("2/4"), false);
+    LEAF("parse(1/2)", parse("1/2"), false);
+    LEAF("parse(0.5)", parse("0.5"), false);
+    LEAF("parse(1/2+I)", parse("1/2+I"), false);
+    LEAF("loads(dumps(1/2))", Basic::loads(Rational::from_two_ints(1, 2)->dumps()), false);
+    LEAF("loads(dumps(x+y))", Basic::loads(add(x, y)->dumps()), false);
+    LEAF("loads(dumps(-0.0))", Basic::loads(real_double(-0.0)->dumps()), false);
+    {
+        struct CB {
+            basic b;
+            CB() { basic_new_stack(b); }
+            ~CB() { basic_free_stack(b); }
+        };
+        // the C handles hold an RCP<const Basic>; read it back through basic_str-independent accessors
+        auto via = [&](const std::string &name, const std::function<void(basic)> &f) {
+            W.put(name, [&]() -> RCP<const Basic> {
+                CB h;
+                f(h.b);
+                return RCP<const Basic>(static_cast<const Basic *>(h.b->data)); // the handle stores the RCP's raw pointer
+            });
+        };
+        via("C:rational_set_si(2,4)", [](basic b) { rational_set_si(b, 2, 4); });
+        via("C:rational_set_si(1,2)", [](basic b) { rational_set_si(b, 1, 2); });
+        via("C:rational_set_si(-1,-2)", [](basic b) { rational_set_si(b, -1, -2); });
+        via("C:rational_set_ui(4,2)", [](basic b) { rational_set_ui(b, 4, 2); });
+        via("C:rational_set(2,4)", [](basic b) {
+            CB n, d;
+            integer_set_si(n.b, 2);
+            integer_set_si(d.b, 4);
+            rational_set(b, n.b, d.b);
+        });
+        via("C:integer_set_str(2^64+1)", [](basic b) { integer_set_str(b, "18446744073709551617"); });
+        via("C:real_double_set_d(-0.0)", [](basic b) { real_double_set_d(b, -0.0); });
+        via("C:complex_set(1/2,1)", [](basic b) {
+            CB r, i;
+            rational_set_si(r.b, 2, 4);
+            integer_set_si(i.b, 1);
+            complex_set(b, r.b, i.b);
+        });
+        via("C:basic_parse(2/4)", [](basic b) { basic_parse(b, "2/4"); });
+        via("C:symbol_set(x)", [](basic b) { symbol_set(b, "x"); });
+    }
     // ---- symbols, dummies, constants
     LEAF("x", x, true);
     LEAF("y", y, true);
